@@ -397,6 +397,18 @@ func (l *orderColumnsRow) compareInt(lval, rval int64, reverse bool) int {
 }
 
 func (l *orderColumnsRow) compareFloat(lval, rval float64, reverse bool) int {
+	// NaN is neither equal to, less than nor greater than anything: left to ==
+	// and < it is "after everything" from both sides and disorders the other
+	// rows. It is placed before every number and is equal to itself
+	if lnan, rnan := lval != lval, rval != rval; lnan || rnan {
+		if lnan && rnan {
+			return 0
+		}
+		if lnan != reverse {
+			return -1
+		}
+		return 1
+	}
 	if lval == rval {
 		return 0
 	}
